@@ -504,7 +504,7 @@ def plan(tier, seed):
     pl.finite.append(("A6/Lean re-check of the composition lemmas L-IND", _leanc.compose_check('L-IND')))
 
     def sweep():
-        return bounded.run_native("c12_merge", {"max_operands": 4 if tier == "quick" else 5,
+        return bounded.run_native("c12_merge", {"max_operands": 4 if tier == "quick" else 7,
                                                 "known": bounded.known_for("C12", "C12-B")})
     pl.bounded = [("C12-B/conjunction-preserved on a finite ordered domain (cross-check of the invariant, safety net)", sweep)]
     pl.functions = ["luqum.utils.OpenRangeTransformer." + f for f in
